@@ -506,3 +506,25 @@ func checkExpiration(ctx *Context, fact map[string]interface{}, unixNow int64) (
 // to hide behind.
 //
 //  --Douglas MacArthur, reported in William A. Ganoe's MacArthur Close-Up
+
+// dependsOn reports whether the fact's 'deleteWith' names the given
+// id.  The search for dependents uses the id as a pattern element, so
+// an id that looks like a variable ("?x") finds every fact that has
+// any 'deleteWith' at all.
+func dependsOn(fact map[string]interface{}, id string) bool {
+	switch vv := fact[KW_DeleteWith].(type) {
+	case []interface{}:
+		for _, x := range vv {
+			if s, ok := x.(string); ok && s == id {
+				return true
+			}
+		}
+	case []string:
+		for _, s := range vv {
+			if s == id {
+				return true
+			}
+		}
+	}
+	return false
+}
